@@ -843,3 +843,11 @@ fire("C05", "rotation applied from the left", "R8.radial-times-shell/atomgrid.At
 silent("C05", "shell scaled by a named radius and radial weight",
        ("sub", "atomgrid.py", "            points = points * rgrid[i].points\n            weights = weights * rgrid[i].weights * rgrid[i].points ** 2\n",
         "            shell = rgrid[i]\n            points = shell.points * points\n            weights = (shell.points**2 * shell.weights) * weights\n"))
+
+# ------------------------------------------------------------------------------------------ C07 R7
+fire("C07", "aim weights applied twice", "R7.molecular-assembly/molgrid.MolGrid.__init__/weights",
+     ("sub", "molgrid.py", "        super().__init__(self.points, self._atweights * self._aim_weights)\n", "        super().__init__(self.points, self._atweights * self._aim_weights * self._aim_weights)\n"))
+fire("C07", "weight callable receives the index table without its last entry", "R7.molecular-assembly/molgrid.MolGrid.__init__/aim-callable-arguments",
+     ("sub", "molgrid.py", "            self._aim_weights = aim_weights(self._points, self._atcoords, atnums, self._indices)\n", "            self._aim_weights = aim_weights(self._points, self._atcoords, atnums, self._indices[:-1])\n"))
+silent("C07", "base class initialised with a named weight product",
+       ("sub", "molgrid.py", "        super().__init__(self.points, self._atweights * self._aim_weights)\n", "        total_weights = self._aim_weights * self._atweights\n        super().__init__(self.points, total_weights)\n"))
